@@ -33,23 +33,28 @@ pub fn compute_coset_elements(
     coset_size: Felt,
     coset_start_index: Felt,
     fri_group: &[Felt],
-) -> (Vec<Felt>, Felt) {
+) -> Result<(Vec<Felt>, Felt), FriError> {
     let mut coset_elements = Vec::new();
     let mut coset_x_inv = Felt::ZERO;
-    let coset_size: usize = coset_size.to_biguint().try_into().unwrap();
+    let coset_size: usize =
+        coset_size.to_biguint().try_into().map_err(|_| FriError::InvalidCosetSize)?;
     for index in 0..coset_size {
         let q = queries.first();
         if q.is_some() && q.unwrap().index == coset_start_index + Felt::from(index) {
             let query: Vec<FriLayerQuery> = queries.drain(0..1).collect();
             coset_elements.push(query[0].y_value);
-            coset_x_inv = query[0].x_inv_value * fri_group.get(index).unwrap();
+            coset_x_inv =
+                query[0].x_inv_value * fri_group.get(index).ok_or(FriError::InvalidCosetSize)?;
         } else {
+            if sibling_witness.is_empty() {
+                return Err(FriError::WitnessTooShort);
+            }
             let withness: Vec<Felt> = sibling_witness.drain(0..1).collect();
             coset_elements.push(withness[0]);
         }
     }
 
-    (coset_elements, coset_x_inv)
+    Ok((coset_elements, coset_x_inv))
 }
 
 // Computes FRI next layer for the given queries. I.e., takes the given i-th layer queries
@@ -89,7 +94,7 @@ pub fn compute_next_layer(
             coset_size,
             coset_index * coset_size,
             &params.fri_group,
-        );
+        )?;
         verify_y_values.extend(coset_elements.iter());
 
         let fri_formula_res =
@@ -114,4 +119,8 @@ use crate::formula::fri_formula;
 pub enum FriError {
     #[error("FRI formula error: {0}")]
     FriFormulaError(#[from] crate::formula::Error),
+    #[error("not enough sibling leaves in the layer witness")]
+    WitnessTooShort,
+    #[error("invalid coset size")]
+    InvalidCosetSize,
 }
